@@ -50,11 +50,14 @@ func main() {
 	r.Assume("byte strings that are not valid UTF-8 are not used as stored values: utf8mb4 columns reject them, single-byte character sets read them as non-ASCII text, which C27's known finding non-ascii-text-in-single-byte-charset (length measured in UTF-8 bytes) keeps out of the core domain")
 	inProcess(r, cat)
 	overTheWire(r, cat)
+	bulkReads(r)
 	pinned(r)
 	r.Floor(r.Counter("inproc.roundtrips") > 0, "Type.SQL never reached")
 	r.Floor(r.Counter("inproc.length.checked") > 0, "MaxTextResponseByteLength never compared")
 	r.Floor(r.Counter("wire.text.values") > 0, "no value received over the text protocol")
 	r.Floor(r.Counter("wire.binary.values") > 0, "no value received over the binary protocol")
+	r.Floor(r.Counter("bulk.text.values") > 0 && r.Counter("bulk.binary.values") > 0, "no multi-row result received")
+	r.Floor(r.Counter("bulk.boundary-hits-steered") > 0, "no multi-row result was steered onto a buffer boundary")
 	r.Finish()
 }
 
